@@ -94,7 +94,7 @@ theorem C10_harvest_conservation [Inhabited α] (E : Env α) (c : FCtx α) (hlt 
     have hG0 : GInv E c root ({ stream := stream } : HState α) :=
       ⟨fun id hid => by simp at hid, fun p hp => by simp at hp, fun id hid => by simp at hid⟩
     obtain ⟨⟨_, hG, hgood⟩, hcons⟩ := (harvest_all E c hlt root 100000).1 root _ ids s hsh Reach.refl hG0 hrun
-    rcases hcons (by simp) with rfl | ⟨N, hN, hsum⟩
+    rcases hcons (by simp) with ⟨rfl, _⟩ | ⟨N, hN, hsum⟩
     · left; simp
     · right
       refine ⟨N, hN, ?_⟩
